@@ -99,6 +99,10 @@ def classify(rec, pfail, mfail, extra, rep):
     if nknown2:
         rep.known("F-C05-2", "two script-neutral glyphs are kerned in the direction-less common lookup: under a right-to-left "
                              "script they receive the advance adjustment but no x-placement")
+    if len(extra) > 4 and extra[4]:
+        rep.known("F-C05-3", "a mixed-direction pair whose deciding exception has a class side with both R and L members: the "
+                             "exception is dropped as a whole while a less specific covering entry still applies, so the pair gets "
+                             "that entry's value (neither zero nor the UFO value)")
     if pfail != "none":
         rep.notes.setdefault("witnesses", []).append({"tid": rec["tid"], "clause": pfail, "witness": extra[3], "writer": rec["_writer"]})
     return None
